@@ -343,7 +343,13 @@ fn check(text: &Text, parent: Option<&Node>, n: &Node) -> Result<usize, String> 
   Ok(count)
 }
 
-const EXTRA: &str = r#"import { Pair, Triple } from std.tuples;
+const EXTRA: &str = r#"/*
+* a block comment whose gutter stars and closing star sit in column 0
+*
+*/
+/** a doc comment that ends in column 0
+*/
+import { Pair, Triple } from std.tuples;
 import { Comparable } from std.interfaces
 import { Triple } from std.tuples /* why */ ;
 
@@ -351,7 +357,10 @@ private interface Walker<T: Comparable<T>, R> : Comparable<T> {
   method <A, B: Comparable<B>> walk(start: T, f: (T, A) -> B, g: () -> unit): R
 }
 
-class Shape(Circle(int), Square(int), Line(int), Dot) {
+/*
+  stars in other columns * and ** and a line that is only a star:
+*
+  */ class Shape(Circle(int), Square(int), Line(int), Dot) {
   method size(): int = match (this) { Circle(r) | Square(r) | Line(r) -> r, Dot -> 0 }
 }
 
